@@ -237,6 +237,9 @@ def run_case(c, t: Tally, verbose=False):
         kw = dict(sni=None, address=(identity, 443))
     elif src == "client_sni":
         kw = dict(sni=identity, address=(OTHER_ADDR, 443))
+    elif src == "upstream_proxy":
+        # --mode upstream:https://<identity>:8080 - the verified connection is the one to the proxy, not context.server
+        kw = dict(sni="origin.example.net", address=("origin.example.net", 443), proxy_address=(identity, 8080))
     else:
         kw = dict(sni="unrelated.example.net", server_sni=identity, address=(OTHER_ADDR, 443))
     rig = tp.Rig("server", p["env"], child_opens=opens, greeting=GREETING, **kw)
@@ -314,7 +317,7 @@ def cases(tier):
                 for kind in kinds:
                     g = []
                     for identity in ids:
-                        srcs = ["address"] + (["client_sni"] if id_class(identity) in ("dns", "dns-upper", "idn") else []) + (["server_sni"] if thorough else [])
+                        srcs = ["address"] + (["client_sni"] if id_class(identity) in ("dns", "dns-upper", "idn") else []) + ["upstream_proxy"] + (["server_sni"] if thorough else [])
                         for src in srcs:
                             for tls in ("1.3", "1.2"):
                                 for opens in (True, False):
@@ -333,7 +336,8 @@ def run(ctx):
     ctx.bounds = {
         "certificate_kinds": list(KINDS) + (list(THOROUGH_KINDS) if thorough else []),
         "identities": list(IDENTITIES) + (list(THOROUGH_IDENTITIES) if thorough else []),
-        "identity_source": ["server address", "client SNI (DNS identities)"] + (["server.sni preset by an addon"] if thorough else []),
+        "identity_source": ["server address", "client SNI (DNS identities)", "address of an upstream HTTPS proxy (ServerTLSLayer over a connection that is not context.server)"]
+        + (["server.sni preset by an addon"] if thorough else []),
         "trust_configuration": TRUSTS, "ssl_insecure": [False, True], "tls_versions": ["1.3", "1.2"], "connection_opened_by": ["inner layer (OpenConnection)", "already open (eager)"],
         "client_certs": ctx.pick("unset; set for trust file:A and default (TLS 1.3, inner layer opens)", "unset / set, full product"),
         "cases": n,
